@@ -4,6 +4,7 @@ package main
 
 import (
 	"bytes"
+	"context"
 	"encoding/json"
 	stderrors "errors"
 	"fmt"
@@ -23,6 +24,7 @@ import (
 	"github.com/go-openapi/runtime/middleware"
 	"github.com/go-openapi/runtime/middleware/untyped"
 	"github.com/go-openapi/runtime/security"
+	"github.com/go-openapi/strfmt"
 )
 
 // C02 — security requirements are an OR of ANDs. One case = a requirement structure written into a generated
@@ -59,16 +61,89 @@ type c02Deny struct {
 	Err c02Err `json:"err"`
 }
 
+type c02Hdr struct {
+	N string `json:"n"`
+	V string `json:"v"`
+}
+
+// Scheme ids: 0..3 are s0..s3; 4..7 are their case twins S0..S3; 8..11 their padded twins "s0 ".."s3 " (a
+// distinct securityDefinitions key that differs only by a trailing blank). Ids >= 4 exist only when listed in Twins.
 type c02In struct {
 	Alts     []c02Alt  `json:"alts"`
 	Where    string    `json:"where"`              // op | global | op-over-global
 	Explicit bool      `json:"explicit,omitempty"` // scheme orders of Alts are imposed; else read back from the route
 	Unreg    []int     `json:"unreg,omitempty"`    // defined schemes without a registered authenticator
 	Undef    []int     `json:"undef,omitempty"`    // schemes absent from securityDefinitions
+	Twins    []int     `json:"twins,omitempty"`    // look-alike scheme ids (>= 4) present in securityDefinitions
 	Outs     []c02Out  `json:"outs"`
 	HasAz    bool      `json:"has_az,omitempty"`
 	Deny     []c02Deny `json:"deny,omitempty"`
 	BindOK   bool      `json:"bind_ok"`
+	Method   string    `json:"method,omitempty"` // method the secured operation is declared under; "" = POST
+	Hdrs     []c02Hdr  `json:"hdrs,omitempty"`   // extra request headers (CORS preflight, method override, ...)
+	Hist     *c02Hist  `json:"hist,omitempty"`   // a history case: everything above except nothing is used
+}
+
+// a history case is written as {"hist": ...} alone
+func (in c02In) MarshalJSON() ([]byte, error) {
+	if in.Hist != nil {
+		return json.Marshal(struct {
+			Hist *c02Hist `json:"hist"`
+		}{in.Hist})
+	}
+	type plain c02In
+	return json.Marshal(plain(in))
+}
+
+// ---- history cases: several requests on ONE api whose schemes are checked by the library's own authenticators
+// scheme kinds (fixed): 0 security.BearerAuth, 1 BearerAuthCtx (both read the bearer token), 2 APIKeyAuth (header X-K2),
+// 3 APIKeyAuthCtx (query k3), 4 BasicAuth, 5 BasicAuthCtx (both read the basic user). The validation callbacks
+// answer from the Grants table; those of 0 and 1 also check the scopes required by the operation.
+
+type c02HOp struct {
+	Method string   `json:"method"`
+	Path   string   `json:"path"`
+	Alts   []c02Alt `json:"alts"`
+}
+
+type c02Grant struct {
+	S      int   `json:"s"`
+	Tok    int   `json:"tok"`
+	P      *int  `json:"p"` // nil = the callback answers (nil, nil)
+	Scopes []int `json:"scopes,omitempty"`
+}
+
+type c02HCall struct {
+	Op       int      `json:"op"`
+	Bearer   *int     `json:"bearer,omitempty"`
+	BearerIn string   `json:"bearer_in,omitempty"` // header (default) | query; forced to query when Basic is present too
+	Basic    *int     `json:"basic,omitempty"`
+	Key2     *int     `json:"key2,omitempty"`
+	Key3     *int     `json:"key3,omitempty"`
+	BindOK   bool     `json:"bind_ok"`
+	Via      string   `json:"via"` // serve | authorize
+	Hdrs     []c02Hdr `json:"hdrs,omitempty"`
+}
+
+type c02Hist struct {
+	Ops    []c02HOp   `json:"ops"`
+	Grants []c02Grant `json:"grants"`
+	HasAz  bool       `json:"has_az,omitempty"`
+	Deny   []c02Deny  `json:"deny,omitempty"`
+	Calls  []c02HCall `json:"calls"`
+}
+
+type c02HObs struct {
+	Tr    []c02Ev `json:"tr"`
+	Kind  string  `json:"kind,omitempty"` // authorize: granted | refused | panic | mismatch
+	Usr   *int    `json:"usr,omitempty"`
+	Sc    []int   `json:"sc,omitempty"`
+	Err   *c02Err `json:"err,omitempty"`
+	FTr   []c02Ev `json:"f_tr"`
+	FKind string  `json:"f_kind,omitempty"`
+	FUsr  *int    `json:"f_usr,omitempty"`
+	FSc   []int   `json:"f_sc,omitempty"`
+	FErr  *c02Err `json:"f_err,omitempty"`
 }
 
 type c02Ev struct {
@@ -81,19 +156,20 @@ type c02Ev struct {
 }
 
 type c02Obs struct {
-	Orders   [][]int `json:"orders"` // scheme order actually used, per alternative
-	DTr      []c02Ev `json:"d_tr"`
-	DApplies bool    `json:"d_applies"`
-	DUsr     *int    `json:"d_usr"`
-	DErr     *c02Err `json:"d_err"`
-	DRoute   int     `json:"d_route"` // index of the alternative left in MatchedRoute.Authenticator, -1 none
-	BTr      []c02Ev `json:"b_tr"`
-	BKind    string  `json:"b_kind"` // granted | refused | panic | mismatch
-	BUsr     *int    `json:"b_usr"`
-	BScopes  []int   `json:"b_scopes"`
-	BErr     *c02Err `json:"b_err"`
-	ATr      []c02Ev `json:"a_tr"`
-	Panic    string  `json:"panic,omitempty"`
+	Orders   [][]int   `json:"orders"` // scheme order actually used, per alternative
+	DTr      []c02Ev   `json:"d_tr"`
+	DApplies bool      `json:"d_applies"`
+	DUsr     *int      `json:"d_usr"`
+	DErr     *c02Err   `json:"d_err"`
+	DRoute   int       `json:"d_route"` // index of the alternative left in MatchedRoute.Authenticator, -1 none
+	BTr      []c02Ev   `json:"b_tr"`
+	BKind    string    `json:"b_kind"` // granted | refused | panic | mismatch
+	BUsr     *int      `json:"b_usr"`
+	BScopes  []int     `json:"b_scopes"`
+	BErr     *c02Err   `json:"b_err"`
+	ATr      []c02Ev   `json:"a_tr"`
+	Panic    string    `json:"panic,omitempty"`
+	H        []c02HObs `json:"h,omitempty"`
 }
 
 type c02 struct{}
@@ -107,7 +183,12 @@ func (c02) Rule() string {
 		"x all 4^3 outcome vectors (not applicable / principal / nil principal / rejected), explicit scheme orders; authorizer kind, registration, scopes, " +
 		"placement (operation/global/operation over global) and parameter validity cycle with the index. Random stream: 1-4 alternatives x 0-3 of 4 schemes, " +
 		"scopes, unregistered/undefined schemes, raw authenticator answers (error+principal, not-applicable+error), principal-specific authorizers, natural map order. " +
-		"Non-trivial: at least one authenticator was called and the structure has >=2 schemes or >=2 alternatives."
+		"Every case also carries the method the operation is declared under (POST GET OPTIONS PUT DELETE HEAD PATCH) and 0-3 extra request headers " +
+		"(CORS preflight, method override, forwarding, upgrade); one structure in seven of the cycling dimension names a look-alike scheme (S0 / trailing blank) " +
+		"with only one of the pair registered. One generated case in nine is a HISTORY: 2-4 operations (same path, different methods) on one api instance whose six schemes " +
+		"are checked by security.BearerAuth/BearerAuthCtx/APIKeyAuth/APIKeyAuthCtx/BasicAuth/BasicAuthCtx over a grants table (bearer callbacks check the required scopes), " +
+		"2-5 requests mostly presenting the same credential to operations requiring different scopes, each also served by a fresh instance. " +
+		"Non-trivial: at least one authenticator was called and the structure has >=2 schemes or >=2 alternatives; history: authenticators were asked in >=2 requests."
 }
 
 func (c02) Decode(raw json.RawMessage) (any, error) {
@@ -156,6 +237,8 @@ func c02Secondary(in *c02In, sidx, idx int) {
 		g = -g
 	}
 	in.Where = []string{"op", "global", "op-over-global"}[g%3]
+	in.Method = c02Methods[sidx%len(c02Methods)]
+	in.Hdrs = c02HdrsFor(idx*7919 + 13)
 	g /= 3
 	in.BindOK = h%4 != 0
 	h /= 4
@@ -190,10 +273,13 @@ func c02Secondary(in *c02In, sidx, idx int) {
 		pp := 1 + h%3
 		in.Deny = []c02Deny{{P: &pp, Err: c02Err{403, 33}}}
 	}
+	twin := 0
 	if g%7 == 0 {
 		in.Unreg = []int{(g / 7) % 3}
 	} else if g%7 == 1 {
 		in.Undef = []int{(g / 7) % 3}
+	} else if g%7 == 2 {
+		twin = 1 + (g/7)%4
 	}
 	g /= 7
 	h = g
@@ -212,6 +298,9 @@ func c02Secondary(in *c02In, sidx, idx int) {
 				}
 			}
 		}
+	}
+	if twin > 0 {
+		c02Twin(in, twin)
 	}
 }
 
@@ -270,7 +359,11 @@ func (c02) Enumerate(tier string) []any {
 }
 
 func (c02) Gen(r *rand.Rand, tier string, i int) any {
-	// half of the stream: a random member of the 2- and 3-alternative enumeration (complete in thorough)
+	// one case in nine: a history on one api instance with the library's own authenticators
+	if r.Intn(9) == 0 {
+		return c02GenHist(r)
+	}
+	// half of the rest: a random member of the 2- and 3-alternative enumeration (complete in thorough)
 	if r.Intn(2) == 0 {
 		n := 2 + r.Intn(2)
 		var alts []int
@@ -281,6 +374,8 @@ func (c02) Gen(r *rand.Rand, tier string, i int) any {
 	}
 	in := c02In{Explicit: r.Intn(10) < 7, BindOK: r.Intn(5) != 0}
 	in.Where = []string{"op", "global", "op-over-global"}[r.Intn(3)]
+	in.Method = c02Methods[r.Intn(len(c02Methods))]
+	in.Hdrs = c02HdrsFor(r.Intn(1 << 24))
 	nalts := 1 + r.Intn(4)
 	if r.Intn(25) == 0 {
 		nalts = 0
@@ -341,17 +436,42 @@ func (c02) Gen(r *rand.Rand, tier string, i int) any {
 			}
 		}
 	}
+	if r.Intn(8) == 0 {
+		c02Twin(&in, 1+r.Intn(4))
+	}
 	return in
 }
 
 // ---------- running the real code ----------
 
 type c02Env struct {
-	in   c02In
-	outs map[int]c02Out
-	deny []c02Deny
-	log  []c02Ev
+	in      c02In
+	outs    map[int]c02Out
+	deny    []c02Deny
+	log     []c02Ev
+	bound   bool     // a bind event was logged for the current request
+	curAlts []c02Alt // history cases: the alternatives (with scheme orders) of the operation being called
 }
+
+func (e *c02Env) reset() { e.log, e.bound = nil, false }
+
+// bind records that parameter binding ran (once per request): the JSON consumer for requests with a body, the
+// validator of the string format of query parameter f for every method.
+func (e *c02Env) bind() {
+	if !e.bound {
+		e.bound = true
+		e.log = append(e.log, c02Ev{K: "bind"})
+	}
+}
+
+type c02Fmt string
+
+func (f c02Fmt) String() string                { return string(f) }
+func (f c02Fmt) MarshalText() ([]byte, error)  { return []byte(f), nil }
+func (f *c02Fmt) UnmarshalText(b []byte) error { *f = c02Fmt(b); return nil }
+
+var _ strfmt.Format = new(c02Fmt)
+var _ = context.Background
 
 type c02Built struct {
 	env *c02Env
@@ -361,8 +481,38 @@ type c02Built struct {
 
 var c02Cache = map[string]*c02Built{}
 
-func c02SchemeName(k int) string { return "s" + strconv.Itoa(k) }
-func c02ScopeName(k int) string  { return "c" + strconv.Itoa(k) }
+func c02SchemeName(k int) string {
+	b := strconv.Itoa(k % 4)
+	switch k / 4 {
+	case 0:
+		return "s" + b
+	case 1:
+		return "S" + b
+	}
+	return "s" + b + " "
+}
+func c02SchemeID(name string) int {
+	for k := 0; k < 12; k++ {
+		if c02SchemeName(k) == name {
+			return k
+		}
+	}
+	return 99
+}
+func c02Defined(in c02In, k int) bool {
+	if k < 4 {
+		return !c02Contains(in.Undef, k)
+	}
+	return c02Contains(in.Twins, k)
+}
+func c02Registered(in c02In, k int) bool { return c02Defined(in, k) && !c02Contains(in.Unreg, k) }
+func c02Method(in c02In) string {
+	if in.Method == "" {
+		return "POST"
+	}
+	return in.Method
+}
+func c02ScopeName(k int) string { return "c" + strconv.Itoa(k) }
 func c02ParseID(s string) int {
 	n, err := strconv.Atoi(s[1:])
 	if err != nil {
@@ -435,18 +585,19 @@ func c02Contains(xs []int, x int) bool {
 
 func c02Build(in c02In) *c02Built {
 	keyObj := struct {
-		A     []c02Alt
-		W     string
-		U, D  []int
-		HasAz bool
-	}{in.Alts, in.Where, in.Unreg, in.Undef, in.HasAz}
+		A       []c02Alt
+		W       string
+		U, D, T []int
+		HasAz   bool
+		M       string
+	}{in.Alts, in.Where, in.Unreg, in.Undef, in.Twins, in.HasAz, c02Method(in)}
 	kb, _ := json.Marshal(keyObj)
 	if b, ok := c02Cache[string(kb)]; ok {
 		return b
 	}
 	defs := map[string]any{}
-	for k := 0; k < 4; k++ {
-		if !c02Contains(in.Undef, k) {
+	for k := 0; k < 12; k++ {
+		if c02Defined(in, k) {
 			defs[c02SchemeName(k)] = map[string]any{"type": "apiKey", "name": "X-S" + strconv.Itoa(k), "in": "header"}
 		}
 	}
@@ -458,6 +609,7 @@ func c02Build(in c02In) *c02Built {
 		"operationId": "doX",
 		"parameters": []any{
 			map[string]any{"name": "n", "in": "query", "type": "integer", "required": true},
+			map[string]any{"name": "f", "in": "query", "type": "string", "format": "c02f"},
 			map[string]any{"name": "b", "in": "body", "schema": map[string]any{"type": "object"}},
 		},
 		"responses": map[string]any{"200": map[string]any{"description": "ok"}},
@@ -466,7 +618,7 @@ func c02Build(in c02In) *c02Built {
 		"swagger": "2.0", "info": map[string]any{"title": "t", "version": "1"},
 		"consumes": []string{"application/json"}, "produces": []string{"application/json"},
 		"securityDefinitions": defs,
-		"paths":               map[string]any{"/x": map[string]any{"post": op}},
+		"paths":               map[string]any{"/x": map[string]any{strings.ToLower(c02Method(in)): op}},
 	}
 	switch in.Where {
 	case "global":
@@ -484,13 +636,9 @@ func c02Build(in c02In) *c02Built {
 	}
 	env := &c02Env{}
 	api := untyped.NewAPI(spec)
-	api.RegisterConsumer("application/json", runtime.ConsumerFunc(func(rd io.Reader, data interface{}) error {
-		env.log = append(env.log, c02Ev{K: "bind"})
-		return runtime.JSONConsumer().Consume(rd, data)
-	}))
-	api.RegisterProducer("application/json", runtime.JSONProducer())
-	for k := 0; k < 4; k++ {
-		if c02Contains(in.Undef, k) || c02Contains(in.Unreg, k) {
+	c02Instrument(api, env)
+	for k := 0; k < 12; k++ {
+		if !c02Registered(in, k) {
 			continue
 		}
 		name := k
@@ -533,7 +681,7 @@ func c02Build(in c02In) *c02Built {
 			return nil
 		}))
 	}
-	api.RegisterOperation("post", "/x", runtime.OperationHandlerFunc(func(interface{}) (interface{}, error) {
+	api.RegisterOperation(c02Method(in), "/x", runtime.OperationHandlerFunc(func(interface{}) (interface{}, error) {
 		env.log = append(env.log, c02Ev{K: "handle"})
 		return map[string]string{"r": "ok"}, nil
 	}))
@@ -554,27 +702,52 @@ func c02Build(in c02In) *c02Built {
 	return b
 }
 
-func c02Request(in c02In) *http.Request {
-	target := "/x?n=7"
-	if !in.BindOK {
-		target = "/x?n=seven"
+// c02Instrument registers the consumer/producer and the string format whose validator reveals parameter binding.
+func c02Instrument(api *untyped.API, env *c02Env) {
+	api.RegisterConsumer("application/json", runtime.ConsumerFunc(func(rd io.Reader, data interface{}) error {
+		env.bind()
+		return runtime.JSONConsumer().Consume(rd, data)
+	}))
+	api.RegisterProducer("application/json", runtime.JSONProducer())
+	api.RegisterFormat("c02f", new(c02Fmt), func(string) bool {
+		env.bind()
+		return true
+	})
+}
+
+func c02NewRequest(method, path string, bindOK bool, query string, hdrs []c02Hdr) *http.Request {
+	target := path + "?f=v&n=7"
+	if !bindOK {
+		target = path + "?f=v&n=seven"
 	}
-	req := httptest.NewRequest("POST", target, bytes.NewReader([]byte(`{"a":1}`)))
+	target += query
+	req := httptest.NewRequest(method, target, bytes.NewReader([]byte(`{"a":1}`)))
 	req.Header.Set("Content-Type", "application/json")
+	for _, h := range hdrs {
+		req.Header.Add(h.N, h.V)
+	}
 	return req
+}
+
+func c02Request(in c02In) *http.Request {
+	return c02NewRequest(c02Method(in), "/x", in.BindOK, "", in.Hdrs)
 }
 
 // c02Order imposes (explicit) or reads back the scheme order of every alternative on a private copy.
 func c02Order(in c02In, ras middleware.RouteAuthenticators) middleware.RouteAuthenticators {
+	return c02OrderAlts(in.Alts, in.Explicit, c02SchemeName, ras)
+}
+
+func c02OrderAlts(alts []c02Alt, explicit bool, name func(int) string, ras middleware.RouteAuthenticators) middleware.RouteAuthenticators {
 	cp := append(middleware.RouteAuthenticators(nil), ras...)
-	if in.Explicit && len(cp) == len(in.Alts) {
+	if explicit && len(cp) == len(alts) {
 		for i := range cp {
-			if len(in.Alts[i].Schemes) == 0 {
+			if len(alts[i].Schemes) == 0 {
 				continue
 			}
-			names := make([]string, 0, len(in.Alts[i].Schemes))
-			for _, s := range in.Alts[i].Schemes {
-				names = append(names, c02SchemeName(s.Name))
+			names := make([]string, 0, len(alts[i].Schemes))
+			for _, s := range alts[i].Schemes {
+				names = append(names, name(s.Name))
 			}
 			// only a permutation of what the builder produced may be imposed
 			a, b := append([]string(nil), names...), append([]string(nil), cp[i].Schemes...)
@@ -592,6 +765,13 @@ func (c02) Run(inAny any) any {
 	in := inAny.(c02In)
 	var obs c02Obs
 	obs.DRoute = -1
+	if in.Hist != nil {
+		p, m := recoverTo(func() { obs.H = c02RunHist(in.Hist) })
+		if p {
+			obs.Panic = "history: " + m
+		}
+		return obs
+	}
 	b := c02Build(in)
 	env := b.env
 	env.outs = map[int]c02Out{}
@@ -603,7 +783,7 @@ func (c02) Run(inAny any) any {
 	var msgs []string
 
 	// ---- direct: RouteAuthenticators.Authenticate
-	env.log = nil
+	env.reset()
 	p, m := recoverTo(func() {
 		mr, req, ok := b.ctx.RouteInfo(c02Request(in))
 		if !ok {
@@ -614,7 +794,7 @@ func (c02) Run(inAny any) any {
 			var o []int
 			if !ra.AllowsAnonymous() {
 				for _, s := range ra.Schemes {
-					o = append(o, c02ParseID(s))
+					o = append(o, c02SchemeID(s))
 				}
 			}
 			obs.Orders = append(obs.Orders, o)
@@ -640,7 +820,7 @@ func (c02) Run(inAny any) any {
 	}
 
 	// ---- Context.Authorize, as generated servers call it
-	env.log = nil
+	env.reset()
 	p, m = recoverTo(func() {
 		mr, req, _ := b.ctx.RouteInfo(c02Request(in))
 		mr.Authenticators = c02Order(in, mr.Authenticators)
@@ -670,7 +850,7 @@ func (c02) Run(inAny any) any {
 	}
 
 	// ---- the untyped API handler
-	env.log = nil
+	env.reset()
 	rec := httptest.NewRecorder()
 	p, m = recoverTo(func() {
 		b.h.ServeHTTP(rec, c02Request(in))
@@ -684,7 +864,11 @@ func (c02) Run(inAny any) any {
 			Message string `json:"message"`
 		}
 		_ = json.Unmarshal(rec.Body.Bytes(), &body)
-		obs.ATr = append(obs.ATr, c02Ev{K: "respond", C: rec.Code, M: c02MsgID(body.Message)})
+		ev := c02Ev{K: "respond", C: rec.Code, M: c02MsgID(body.Message)}
+		if c02Method(in) == "HEAD" {
+			ev.M = 0 // no body is promised for HEAD: the message is not an observable
+		}
+		obs.ATr = append(obs.ATr, ev)
 	}
 	obs.Panic = strings.Join(msgs, "; ")
 	return obs
@@ -755,12 +939,15 @@ func c02ActualAlts(in c02In, obs c02Obs) []c02Alt {
 
 func (c02) Coq(inAny any, obsAny any) string {
 	in, obs := inAny.(c02In), obsAny.(c02Obs)
+	if in.Hist != nil {
+		return c02CoqHist(in.Hist, obs)
+	}
 	alts := coqList(c02ActualAlts(in, obs), func(a c02Alt) string {
 		if len(a.Schemes) == 0 {
 			return "Anon"
 		}
 		return "Reqs " + coqList(a.Schemes, func(s c02Scheme) string {
-			reg := !c02Contains(in.Unreg, s.Name) && !c02Contains(in.Undef, s.Name)
+			reg := c02Registered(in, s.Name)
 			return fmt.Sprintf("mk_sreq %d %s %s", s.Name, c02Nats(s.Scopes), coqBool(reg))
 		})
 	})
@@ -795,7 +982,7 @@ func (c02) Coq(inAny any, obsAny any) string {
 	default:
 		bres = "AuthPanic"
 	}
-	return fmt.Sprintf("CSec %s %s %s %s %s %s %s %s %s %s %s %s", alts, outs, az, coqBool(in.BindOK),
+	return fmt.Sprintf("CSec %s %s %s %s %s %s %s %s %s %s %s %s %s", alts, outs, az, coqBool(in.BindOK), coqBool(c02Method(in) == "HEAD"),
 		c02CoqTrace(obs.DTr), coqBool(obs.DApplies), c02OptNat(obs.DUsr), c02CoqOptErr(obs.DErr), droute,
 		c02CoqTrace(obs.BTr), bres, c02CoqTrace(obs.ATr))
 }
@@ -806,6 +993,9 @@ func (c02) Classify(inAny any, obsAny any) []string { return nil }
 
 func (c02) Category(inAny any, obsAny any) (string, bool) {
 	in, obs := inAny.(c02In), obsAny.(c02Obs)
+	if in.Hist != nil {
+		return c02HistCategory(in.Hist, obs)
+	}
 	nschemes, anon := 0, false
 	for _, a := range in.Alts {
 		nschemes += len(a.Schemes)
@@ -852,6 +1042,676 @@ func (c02) Category(inAny any, obsAny any) (string, bool) {
 			calls++
 		}
 	}
-	cat := fmt.Sprintf("%dalt%s/%s/%s/%s/%s%s", len(in.Alts), an, in.Where, order, az, verdict, extra)
+	if len(in.Twins) > 0 {
+		extra += "/twin"
+	}
+	hd := ""
+	for _, h := range in.Hdrs {
+		if h.N == "Access-Control-Request-Method" {
+			hd = "+preflight"
+		}
+	}
+	if hd == "" && len(in.Hdrs) > 0 {
+		hd = "+hdrs"
+	}
+	cat := fmt.Sprintf("%dalt%s/%s/%s%s/%s/%s/%s%s", len(in.Alts), an, in.Where, c02Method(in), hd, order, az, verdict, extra)
 	return cat, calls >= 1 && (nschemes >= 2 || len(in.Alts) >= 2)
+}
+
+// ---------- history cases ----------
+
+func c02HName(k int) string { return "h" + strconv.Itoa(k) }
+func c02HID(name string) int {
+	if len(name) == 2 && name[0] == 'h' && name[1] >= '0' && name[1] <= '9' {
+		return int(name[1] - '0')
+	}
+	return 99
+}
+
+// error values of the validation callbacks (mirrored by h_unk / h_insuf in Check_C02.v)
+func c02HUnk(s int) error {
+	if s == 3 {
+		return stderrors.New("m43")
+	}
+	return errors.New(401, "m%d", 40+s)
+}
+func c02HInsuf(s int) error { return errors.New(403, "m%d", 50+s) }
+
+// c02HDoc is the analyzed swagger document of a history case: immutable input, shared by the instance that serves
+// the whole history and the fresh instances (each of which gets its own API, authenticators, context and router).
+func c02HDoc(h *c02Hist) *loads.Document {
+	scopes := map[string]string{}
+	for c := 0; c < 4; c++ {
+		scopes[c02ScopeName(c)] = "scope"
+	}
+	defs := map[string]any{
+		c02HName(0): map[string]any{"type": "oauth2", "flow": "implicit", "authorizationUrl": "http://a.example/authorize", "scopes": scopes},
+		c02HName(1): map[string]any{"type": "oauth2", "flow": "implicit", "authorizationUrl": "http://b.example/authorize", "scopes": scopes},
+		c02HName(2): map[string]any{"type": "apiKey", "name": "X-K2", "in": "header"},
+		c02HName(3): map[string]any{"type": "apiKey", "name": "k3", "in": "query"},
+		c02HName(4): map[string]any{"type": "basic"},
+		c02HName(5): map[string]any{"type": "basic"},
+	}
+	paths := map[string]any{}
+	for i, o := range h.Ops {
+		reqs := []map[string][]string{}
+		for _, a := range o.Alts {
+			m := map[string][]string{}
+			for _, s := range a.Schemes {
+				sc := []string{}
+				for _, c := range s.Scopes {
+					sc = append(sc, c02ScopeName(c))
+				}
+				m[c02HName(s.Name)] = sc
+			}
+			reqs = append(reqs, m)
+		}
+		op := map[string]any{
+			"operationId": "op" + strconv.Itoa(i),
+			"security":    reqs,
+			"parameters": []any{
+				map[string]any{"name": "n", "in": "query", "type": "integer", "required": true},
+				map[string]any{"name": "f", "in": "query", "type": "string", "format": "c02f"},
+				map[string]any{"name": "b", "in": "body", "schema": map[string]any{"type": "object"}},
+			},
+			"responses": map[string]any{"200": map[string]any{"description": "ok"}},
+		}
+		item, _ := paths[o.Path].(map[string]any)
+		if item == nil {
+			item = map[string]any{}
+			paths[o.Path] = item
+		}
+		item[strings.ToLower(o.Method)] = op
+	}
+	doc := map[string]any{
+		"swagger": "2.0", "info": map[string]any{"title": "t", "version": "1"},
+		"consumes": []string{"application/json"}, "produces": []string{"application/json"},
+		"securityDefinitions": defs, "paths": paths,
+	}
+	raw, _ := json.Marshal(doc)
+	spec, err := loads.Analyzed(json.RawMessage(raw), "")
+	if err != nil {
+		panic(err)
+	}
+	return spec
+}
+
+func c02HBuild(h *c02Hist, spec *loads.Document) *c02Built {
+	env := &c02Env{deny: h.Deny}
+	api := untyped.NewAPI(spec)
+	c02Instrument(api, env)
+	lookup := func(s int, cred string, required []string, scoped bool) (interface{}, error) {
+		id := -1
+		if len(cred) > 1 {
+			id = c02ParseID(cred)
+		}
+		for _, g := range h.Grants {
+			if g.S == s && g.Tok == id {
+				if scoped {
+					for _, sc := range required {
+						if !c02Contains(g.Scopes, c02ParseID(sc)) {
+							return nil, c02HInsuf(s)
+						}
+					}
+				}
+				if g.P == nil {
+					return nil, nil
+				}
+				return *g.P, nil
+			}
+		}
+		return nil, c02HUnk(s)
+	}
+	auths := []runtime.Authenticator{
+		security.BearerAuth(c02HName(0), func(tok string, sc []string) (interface{}, error) { return lookup(0, tok, sc, true) }),
+		security.BearerAuthCtx(c02HName(1), func(ctx context.Context, tok string, sc []string) (context.Context, interface{}, error) {
+			p, err := lookup(1, tok, sc, true)
+			return ctx, p, err
+		}),
+		security.APIKeyAuth("X-K2", "header", func(tok string) (interface{}, error) { return lookup(2, tok, nil, false) }),
+		security.APIKeyAuthCtx("k3", "query", func(ctx context.Context, tok string) (context.Context, interface{}, error) {
+			p, err := lookup(3, tok, nil, false)
+			return ctx, p, err
+		}),
+		security.BasicAuth(func(u, _ string) (interface{}, error) { return lookup(4, u, nil, false) }),
+		security.BasicAuthCtx(func(ctx context.Context, u, _ string) (context.Context, interface{}, error) {
+			p, err := lookup(5, u, nil, false)
+			return ctx, p, err
+		}),
+	}
+	for k, inner := range auths {
+		k, inner := k, inner
+		api.RegisterAuth(c02HName(k), runtime.AuthenticatorFunc(func(params interface{}) (bool, interface{}, error) {
+			ev := c02Ev{K: "auth", S: k}
+			if sr, ok := params.(*security.ScopedAuthRequest); ok {
+				for _, sc := range sr.RequiredScopes {
+					ev.Sc = append(ev.Sc, c02ParseID(sc))
+				}
+			} else {
+				ev.Sc = []int{98}
+			}
+			env.log = append(env.log, ev)
+			return inner.Authenticate(params)
+		}))
+	}
+	if h.HasAz {
+		api.RegisterAuthorizer(runtime.AuthorizerFunc(func(_ *http.Request, p interface{}) error {
+			pp := c02Princ(p)
+			env.log = append(env.log, c02Ev{K: "az", P: pp})
+			for _, d := range env.deny {
+				if (d.P == nil) == (pp == nil) && (pp == nil || *pp == *d.P) {
+					e := d.Err
+					return c02MkErr(&e)
+				}
+			}
+			return nil
+		}))
+	}
+	for _, o := range h.Ops {
+		api.RegisterOperation(o.Method, o.Path, runtime.OperationHandlerFunc(func(interface{}) (interface{}, error) {
+			env.log = append(env.log, c02Ev{K: "handle"})
+			return map[string]string{"r": "ok"}, nil
+		}))
+	}
+	b := &c02Built{env: env, ctx: middleware.NewContext(spec, api, nil)}
+	b.h = b.ctx.RoutesHandler(func(next http.Handler) http.Handler {
+		return http.HandlerFunc(func(w http.ResponseWriter, r *http.Request) {
+			if mr := middleware.MatchedRouteFrom(r); mr != nil {
+				mr.Authenticators = c02OrderAlts(env.curAlts, true, c02HName, mr.Authenticators)
+			}
+			next.ServeHTTP(w, r)
+		})
+	})
+	return b
+}
+
+func c02HTok(id int) string { return "t" + strconv.Itoa(id) }
+
+// c02HCreds is what the request of a call carries per scheme (scheme, token id), as the model sees it.
+func c02HCreds(c c02HCall) [][2]int {
+	var out [][2]int
+	if c.Bearer != nil {
+		out = append(out, [2]int{0, *c.Bearer}, [2]int{1, *c.Bearer})
+	}
+	if c.Key2 != nil {
+		out = append(out, [2]int{2, *c.Key2})
+	}
+	if c.Key3 != nil {
+		out = append(out, [2]int{3, *c.Key3})
+	}
+	if c.Basic != nil {
+		out = append(out, [2]int{4, *c.Basic}, [2]int{5, *c.Basic})
+	}
+	return out
+}
+
+func c02HRequest(h *c02Hist, c c02HCall) *http.Request {
+	op := h.Ops[c.Op]
+	q := ""
+	if c.Key3 != nil {
+		q += "&k3=" + c02HTok(*c.Key3)
+	}
+	bearerQuery := c.Bearer != nil && (c.BearerIn == "query" || c.Basic != nil)
+	if bearerQuery {
+		q += "&access_token=" + c02HTok(*c.Bearer)
+	}
+	req := c02NewRequest(op.Method, op.Path, c.BindOK, q, c.Hdrs)
+	if c.Bearer != nil && !bearerQuery {
+		req.Header.Set("Authorization", "Bearer "+c02HTok(*c.Bearer))
+	}
+	if c.Basic != nil {
+		req.SetBasicAuth("u"+strconv.Itoa(*c.Basic), "pw")
+	}
+	if c.Key2 != nil {
+		req.Header.Set("X-K2", c02HTok(*c.Key2))
+	}
+	return req
+}
+
+type c02HRes struct {
+	tr   []c02Ev
+	kind string
+	usr  *int
+	sc   []int
+	err  *c02Err
+	r2   *http.Request
+}
+
+func c02HReadBack(r2 *http.Request) (*int, []int) {
+	var sc []int
+	for _, s := range middleware.SecurityScopesFrom(r2) {
+		sc = append(sc, c02ParseID(s))
+	}
+	return c02Princ(middleware.SecurityPrincipalFrom(r2)), sc
+}
+
+func c02SamePrinc(a, b *int) bool { return (a == nil) == (b == nil) && (a == nil || *a == *b) }
+
+// c02HDo performs one call of a history on the given instance.
+func c02HDo(b *c02Built, h *c02Hist, c c02HCall) c02HRes {
+	var res c02HRes
+	env := b.env
+	env.reset()
+	env.curAlts = h.Ops[c.Op].Alts
+	req := c02HRequest(h, c)
+	if c.Via == "authorize" {
+		p, _ := recoverTo(func() {
+			mr, rq, ok := b.ctx.RouteInfo(req)
+			if !ok {
+				panic("route not found")
+			}
+			mr.Authenticators = c02OrderAlts(env.curAlts, true, c02HName, mr.Authenticators)
+			usr, r2, err := b.ctx.Authorize(rq, mr)
+			if err != nil {
+				res.kind, res.err = "refused", c02ReadErr(err)
+				return
+			}
+			res.kind, res.usr = "granted", c02Princ(usr)
+			if r2 == nil {
+				res.kind = "mismatch"
+				return
+			}
+			res.r2 = r2
+			cp, sc := c02HReadBack(r2)
+			res.sc = sc
+			if !c02SamePrinc(cp, res.usr) {
+				res.kind = "mismatch"
+			}
+		})
+		res.tr = env.log
+		if p {
+			res.kind = "panic"
+		}
+		return res
+	}
+	rec := httptest.NewRecorder()
+	p, _ := recoverTo(func() { b.h.ServeHTTP(rec, req) })
+	res.tr = env.log
+	if p {
+		res.tr = append(res.tr, c02Ev{K: "panic"})
+	} else {
+		var body struct {
+			Message string `json:"message"`
+		}
+		_ = json.Unmarshal(rec.Body.Bytes(), &body)
+		ev := c02Ev{K: "respond", C: rec.Code, M: c02MsgID(body.Message)}
+		if req.Method == "HEAD" {
+			ev.M = 0
+		}
+		res.tr = append(res.tr, ev)
+	}
+	return res
+}
+
+// c02RunHist serves every call on ONE shared instance and, separately, on a fresh instance per call; what the
+// earlier Authorize calls left in their requests is read again after the whole history has run.
+func c02RunHist(h *c02Hist) []c02HObs {
+	for _, c := range h.Calls {
+		if c.Op < 0 || c.Op >= len(h.Ops) {
+			panic("history: operation index out of range")
+		}
+	}
+	doc := c02HDoc(h)
+	shared := c02HBuild(h, doc)
+	obs := make([]c02HObs, len(h.Calls))
+	kept := make([]c02HRes, len(h.Calls))
+	for i, c := range h.Calls {
+		r := c02HDo(shared, h, c)
+		kept[i] = r
+		f := c02HDo(c02HBuild(h, doc), h, c)
+		obs[i] = c02HObs{Tr: r.tr, Kind: r.kind, Usr: r.usr, Sc: r.sc, Err: r.err,
+			FTr: f.tr, FKind: f.kind, FUsr: f.usr, FSc: f.sc, FErr: f.err}
+	}
+	for i, r := range kept {
+		if r.r2 == nil || r.kind != "granted" {
+			continue
+		}
+		cp, sc := c02HReadBack(r.r2)
+		if !c02SamePrinc(cp, r.usr) || !reflect.DeepEqual(sc, r.sc) {
+			obs[i].Kind = "mismatch"
+		}
+	}
+	return obs
+}
+
+func c02CoqAuthz(kind string, usr *int, sc []int, err *c02Err) string {
+	switch kind {
+	case "granted":
+		return fmt.Sprintf("(Granted %s %s)", c02OptNat(usr), c02Nats(sc))
+	case "refused":
+		if err != nil {
+			return "(Refused " + c02CoqErr(*err) + ")"
+		}
+	}
+	return "AuthPanic"
+}
+
+func c02CoqAz(hasAz bool, deny []c02Deny) string {
+	if !hasAz {
+		return "None"
+	}
+	return "(Some " + coqList(deny, func(d c02Deny) string { return coqPair(c02OptNat(d.P), c02CoqErr(d.Err)) }) + ")"
+}
+
+func c02CoqHist(h *c02Hist, obs c02Obs) string {
+	ops := coqList(h.Ops, func(o c02HOp) string {
+		return coqList(o.Alts, func(a c02Alt) string {
+			if len(a.Schemes) == 0 {
+				return "Anon"
+			}
+			return "Reqs " + coqList(a.Schemes, func(s c02Scheme) string {
+				return fmt.Sprintf("mk_sreq %d %s true", s.Name, c02Nats(s.Scopes))
+			})
+		})
+	})
+	grants := coqList(h.Grants, func(g c02Grant) string {
+		return fmt.Sprintf("mk_grant %d %d %s %s", g.S, g.Tok, c02OptNat(g.P), c02Nats(g.Scopes))
+	})
+	idx := make([]int, len(h.Calls))
+	for i := range idx {
+		idx[i] = i
+	}
+	calls := coqList(idx, func(i int) string {
+		c := h.Calls[i]
+		var o c02HObs
+		if i < len(obs.H) {
+			o = obs.H[i]
+		} else {
+			o = c02HObs{Tr: []c02Ev{{K: "panic"}}, FTr: []c02Ev{{K: "panic"}}, Kind: "panic", FKind: "panic"}
+		}
+		creds := coqList(c02HCreds(c), func(p [2]int) string { return fmt.Sprintf("(%d, %d)", p[0], p[1]) })
+		head := c.Op >= 0 && c.Op < len(h.Ops) && h.Ops[c.Op].Method == "HEAD"
+		return fmt.Sprintf("mk_hcall %d %s %s %s %s %s %s %s %s", c.Op, creds, coqBool(c.BindOK), coqBool(c.Via == "authorize"), coqBool(head),
+			c02CoqTrace(o.Tr), c02CoqAuthz(o.Kind, o.Usr, o.Sc, o.Err), c02CoqTrace(o.FTr), c02CoqAuthz(o.FKind, o.FUsr, o.FSc, o.FErr))
+	})
+	return fmt.Sprintf("CHist %s [0; 1] %s %s %s", ops, grants, c02CoqAz(h.HasAz, h.Deny), calls)
+}
+
+// ---------- generation of the new dimensions ----------
+
+var c02Methods = []string{"POST", "GET", "OPTIONS", "PUT", "POST", "DELETE", "HEAD", "OPTIONS", "PATCH", "POST"}
+
+var c02HdrPool = []c02Hdr{
+	{"Access-Control-Request-Method", "POST"},
+	{"Access-Control-Request-Method", "GET"},
+	{"Origin", "http://evil.example"},
+	{"Access-Control-Request-Headers", "authorization"},
+	{"X-HTTP-Method-Override", "GET"},
+	{"X-HTTP-Method-Override", "OPTIONS"},
+	{"X-Forwarded-For", "127.0.0.1"},
+	{"X-Forwarded-User", "admin"},
+	{"Upgrade", "websocket"},
+	{"Connection", "Upgrade"},
+	{"X-Requested-With", "XMLHttpRequest"},
+	{"Cookie", "session=1"},
+}
+
+// c02HdrsFor picks 0-3 extra headers from a number (the first pool entries, the CORS preflight ones, most often).
+func c02HdrsFor(h int) []c02Hdr {
+	if h < 0 {
+		h = -h
+	}
+	if h%3 == 0 {
+		return nil
+	}
+	h /= 3
+	n := 1 + h%3
+	h /= 3
+	var out []c02Hdr
+	for j := 0; j < n; j++ {
+		k := h % (2 * len(c02HdrPool))
+		h /= 2 * len(c02HdrPool)
+		if k >= len(c02HdrPool) {
+			k %= 2 // half of the picks: an Access-Control-Request-Method header
+		}
+		out = append(out, c02HdrPool[k])
+	}
+	return out
+}
+
+// c02Twin rewrites the case for the look-alike dimension: kind 1/2 = the requirement names the case/padded twin of
+// its first scheme and only the original has an authenticator; kind 3/4 = the requirement keeps the original name,
+// which has no authenticator, while the twin has one (and accepts).
+func c02Twin(in *c02In, kind int) {
+	for i := range in.Alts {
+		if len(in.Alts[i].Schemes) == 0 {
+			continue
+		}
+		k := in.Alts[i].Schemes[0].Name
+		if k >= 4 {
+			return
+		}
+		fam := 4
+		if kind%2 == 0 {
+			fam = 8
+		}
+		t := k + fam
+		in.Twins = append(in.Twins, t)
+		if kind <= 2 {
+			for a := range in.Alts {
+				for j := range in.Alts[a].Schemes {
+					if in.Alts[a].Schemes[j].Name == k {
+						in.Alts[a].Schemes[j].Name = t
+					}
+				}
+			}
+			in.Unreg = append(in.Unreg, t)
+		} else {
+			if !c02Contains(in.Unreg, k) {
+				in.Unreg = append(in.Unreg, k)
+			}
+			in.Outs = append(in.Outs, c02Out{Name: t, Kind: "acc", P: 1 + k})
+		}
+		return
+	}
+}
+
+func c02RandScopes(r *rand.Rand, i int) []int {
+	if r.Intn(8) == 0 {
+		return nil
+	}
+	sc := []int{i % 4}
+	if r.Intn(3) == 0 {
+		if x := r.Intn(4); x != sc[0] {
+			sc = append(sc, x)
+		}
+	}
+	return sc
+}
+
+func c02GenHist(r *rand.Rand) c02In {
+	h := &c02Hist{}
+	methods := []string{"GET", "POST", "DELETE", "PUT", "OPTIONS", "HEAD", "PATCH"}
+	perm := r.Perm(len(methods))
+	nops := 2 + r.Intn(3)
+	focus := []int{0, 0, 0, 1, 1, 1, 2, 3, 4, 5}[r.Intn(10)]
+	scoped := focus <= 1
+	for i := 0; i < nops; i++ {
+		op := c02HOp{Method: methods[perm[i]], Path: "/x"}
+		if r.Intn(4) == 0 {
+			op.Path = "/y"
+		}
+		first := c02Scheme{Name: focus}
+		if scoped {
+			first.Scopes = c02RandScopes(r, i)
+		}
+		alt := c02Alt{Schemes: []c02Scheme{first}}
+		if r.Intn(4) == 0 {
+			o := r.Intn(6)
+			if o != focus {
+				sch := c02Scheme{Name: o}
+				if o <= 1 {
+					sch.Scopes = c02RandScopes(r, i+1)
+				}
+				alt.Schemes = append(alt.Schemes, sch)
+				if r.Intn(2) == 0 {
+					alt.Schemes[0], alt.Schemes[1] = alt.Schemes[1], alt.Schemes[0]
+				}
+			}
+		}
+		op.Alts = []c02Alt{alt}
+		if r.Intn(3) == 0 {
+			o := r.Intn(6)
+			sch := c02Scheme{Name: o}
+			if o <= 1 {
+				sch.Scopes = c02RandScopes(r, i+2)
+			}
+			a2 := c02Alt{Schemes: []c02Scheme{sch}}
+			if r.Intn(2) == 0 {
+				op.Alts = append(op.Alts, a2)
+			} else {
+				op.Alts = []c02Alt{a2, alt}
+			}
+		}
+		if r.Intn(10) == 0 {
+			op.Alts = append(op.Alts, c02Alt{Schemes: []c02Scheme{}})
+		}
+		h.Ops = append(h.Ops, op)
+	}
+	ft := 1 + r.Intn(3)
+	// the focus credential is granted what one of the operations requires (so it is accepted there), the other
+	// operations require something else
+	pp := 1 + r.Intn(5)
+	fg := c02Grant{S: focus, Tok: ft, P: &pp}
+	if scoped {
+		for _, s := range h.Ops[r.Intn(nops)].Alts[0].Schemes {
+			if s.Name == focus {
+				fg.Scopes = append([]int(nil), s.Scopes...)
+			}
+		}
+		if r.Intn(4) == 0 {
+			fg.Scopes = append(fg.Scopes, r.Intn(4))
+		}
+	}
+	if r.Intn(8) != 0 {
+		h.Grants = append(h.Grants, fg)
+	}
+	for s := 0; s < 6; s++ {
+		for tok := 1; tok <= 3; tok++ {
+			if (s == focus && tok == ft) || r.Intn(4) == 0 {
+				continue
+			}
+			g := c02Grant{S: s, Tok: tok}
+			if r.Intn(12) != 0 {
+				p := 1 + r.Intn(5)
+				g.P = &p
+			}
+			if s <= 1 {
+				for c := 0; c < 4; c++ {
+					if r.Intn(2) == 0 {
+						g.Scopes = append(g.Scopes, c)
+					}
+				}
+			}
+			h.Grants = append(h.Grants, g)
+		}
+	}
+	if r.Intn(4) == 0 {
+		h.HasAz = true
+		codes := []int{0, 403, 418}
+		for p := 0; p <= 5; p++ {
+			if r.Intn(4) == 0 {
+				d := c02Deny{Err: c02Err{codes[r.Intn(len(codes))], 31 + p}}
+				if p > 0 {
+					q := p
+					d.P = &q
+				}
+				h.Deny = append(h.Deny, d)
+			}
+		}
+	}
+	ncalls := 2 + r.Intn(4)
+	order := r.Perm(nops)
+	set := func(c *c02HCall, scheme, tok int) {
+		t := tok
+		switch scheme {
+		case 0, 1:
+			c.Bearer = &t
+		case 2:
+			c.Key2 = &t
+		case 3:
+			c.Key3 = &t
+		default:
+			c.Basic = &t
+		}
+	}
+	for i := 0; i < ncalls; i++ {
+		c := c02HCall{BindOK: r.Intn(7) != 0, Via: "serve"}
+		if i < nops {
+			c.Op = order[i]
+		} else {
+			c.Op = r.Intn(nops)
+		}
+		if r.Intn(3) == 0 {
+			c.Via = "authorize"
+		}
+		for _, k := range []int{0, 2, 3, 4} {
+			if r.Intn(6) == 0 {
+				set(&c, k, 1+r.Intn(3))
+			}
+		}
+		switch x := r.Intn(10); {
+		case x < 8:
+			set(&c, focus, ft)
+		case x == 8:
+			set(&c, focus, 1+r.Intn(3))
+		}
+		if c.Bearer != nil && r.Intn(4) == 0 {
+			c.BearerIn = "query"
+		}
+		c.Hdrs = c02HdrsFor(r.Intn(1 << 24))
+		h.Calls = append(h.Calls, c)
+	}
+	return c02In{Hist: h}
+}
+
+func c02HistCategory(h *c02Hist, obs c02Obs) (string, bool) {
+	ran, refused, asked := 0, 0, 0
+	for i, o := range obs.H {
+		called := false
+		for _, e := range o.Tr {
+			if e.K == "auth" {
+				called = true
+			}
+		}
+		if called {
+			asked++
+		}
+		ok := o.Kind == "granted"
+		if i < len(h.Calls) && h.Calls[i].Via != "authorize" {
+			ok = false
+			for _, e := range o.Tr {
+				if e.K == "bind" {
+					ok = true
+				}
+			}
+		}
+		if ok {
+			ran++
+		} else {
+			refused++
+		}
+	}
+	mix := "all-admitted"
+	switch {
+	case ran > 0 && refused > 0:
+		mix = "mixed"
+	case ran == 0:
+		mix = "all-refused"
+	}
+	az := "noaz"
+	if h.HasAz {
+		az = "az"
+	}
+	focus := 9
+	if len(h.Ops) > 0 && len(h.Ops[0].Alts) > 0 {
+		for _, a := range h.Ops[0].Alts {
+			for _, s := range a.Schemes {
+				if focus == 9 {
+					focus = s.Name
+				}
+			}
+		}
+	}
+	return fmt.Sprintf("hist/%dops/%dcalls/h%d/%s/%s", len(h.Ops), len(h.Calls), focus, az, mix), asked >= 2
 }
